@@ -346,8 +346,8 @@ PROPS["C12"] = dict(
     classify=lambda ids, text: "locals_fanout" if set(ids) == {126} else None,
 )
 PROPS["C19"] = dict(
-    level="proof", runner="C19", uses_gen=True, model_files=["Base.v", "Peg.v", "gen/Grammar.v"], proof_files=["Peg_proofs.v"], check_files=["Peg_check.v"],
-    theorems=["C19_positions_within_text", "C19_position_is_consumed_length"],
+    level="proof", runner="C19", uses_gen=True, model_files=["Base.v", "Peg.v", "gen/Grammar.v"], proof_files=["Peg_proofs.v", "Peg_utf8.v"], check_files=["Peg_check.v"],
+    theorems=["C19_positions_within_text", "C19_position_is_consumed_length", "C19_matches_end_on_character_boundaries", "C19_tx3_positions_on_character_boundaries"],
     partial=["the theorem bounds the positions of the modelled parser; that the implementation attaches those positions to the text it carries is checked on every diagnostic of every generated erroneous text (clauses 191-194)"],
     trusted_base=PEG_TB, assumptions=[],
     keep_ids=_only(lambda i: i == 1 or 190 <= i < 200),
